@@ -26,6 +26,7 @@ type ReplayFile struct {
 	Cfg       map[string]any `json:"cfg,omitempty"`
 	Log       []string       `json:"log,omitempty"`
 	Minimised bool           `json:"minimised"`
+	Crash     bool           `json:"crash,omitempty"` // the run killed the process (fatal runtime error): replay = re-execute the seed
 	RawLen    int            `json:"raw_trace_len,omitempty"`
 	RepoRev   string         `json:"repo_rev,omitempty"`
 }
@@ -158,6 +159,9 @@ func worker(t *testing.T, engine, prop string, fn PropFn) {
 		if st.Runs == 0 {
 			st.FirstSeed = seed
 		}
+		// the seed in flight: if the Go runtime kills the process (stack overflow, concurrent map
+		// write, ...) the driver still knows which execution did it
+		_ = os.WriteFile(filepath.Join(out, fmt.Sprintf("cur-w%d", w)), []byte(strconv.FormatUint(seed, 10)+" "+strconv.Itoa(idx)), 0o644)
 		r := newRecordRun(prop, seed, tier, known)
 		Exec(t, r, fn)
 		if r.InfraAbort != "" {
@@ -274,7 +278,16 @@ func replayRun(t *testing.T, rf *ReplayFile, trace []int, fn PropFn, keep bool) 
 // replay re-executes a replay file; prints REPLAY-VIOLATION oracle=<..> sig=<..> or REPLAY-CLEAN.
 func replay(t *testing.T, engine, prop string, fn PropFn) {
 	rf := loadReplay(os.Getenv("VERIF_REPLAY"))
-	r := replayRun(t, rf, rf.Trace, fn, true)
+	var r *Run
+	if rf.Crash {
+		// the original process was killed by the Go runtime: re-execute the seed (record mode);
+		// reproducing means dying again, which the driver observes
+		r = newRecordRun(prop, rf.Seed, rf.Tier, nil)
+		r.KeepLog = true
+		Exec(t, r, fn)
+	} else {
+		r = replayRun(t, rf, rf.Trace, fn, true)
+	}
 	if os.Getenv("VERIF_SHOWLOG") != "" {
 		for _, l := range r.Log {
 			fmt.Println("  |", l)
